@@ -549,6 +549,9 @@ func (p *c08Parent) reopen(im c08Image, verify bool, what string, script string)
 	}
 	p.s.Op(fmt.Sprintf("c8r %d %s %s", v, vfDash(strings.Join(ps, ",")), im.String()), lines...)
 	p.s.Count("images_" + what)
+	if len(im) >= 2 {
+		p.s.Distinct(im.String())
+	}
 }
 
 // ---------------------------------------------------------------- scripts
